@@ -586,6 +586,21 @@ func (c *vpC18Case) run() ([]string, string) {
 
 	// ---- waiters
 	var waiterTimeout, waiterHanded, waiterFresh, waiterDialErr, immediateNoFree int
+	// The slack grows with the scheduling latency observed in this very case: the longest interval
+	// the heartbeat was overdue and the latest any control timer fired. On a quiet machine both
+	// are ~0 and the slack is the nominal 250 ms.
+	sched := beat.maxGap()
+	for _, r := range results {
+		if r.twinWake != 0 {
+			if d := time.Unix(0, r.twinWake).Sub(r.t0.Add(vpC18Budget(wait, r.op))); d > sched {
+				sched = d
+			}
+		}
+	}
+	slack := vpC18Slack + 4*sched
+	if ms := sched.Milliseconds(); ms > 20 {
+		vpExtra("C18.cases_with_sched_latency_over_20ms", 1)
+	}
 	for _, r := range results {
 		// Lateness counts from the moment a control timer armed with the same budget actually fired
 		// in this process (not fired before the op returned = on time), minus measured starvation.
@@ -609,9 +624,9 @@ func (c *vpC18Case) run() ([]string, string) {
 			}
 			if r.syncDials == 0 {
 				// never dialled itself: it found an idle conn, was refused at once, or waited
-				if net > budget+vpC18Slack {
+				if net > budget+slack {
 					viol = append(viol, fmt.Sprintf("worker %d: AcquireConn(reqTimeout=%dms) with MaxConnWaitTimeout=%dms returned %v after %v (%v net of starvation); wait budget %v + %v slack",
-						r.worker, r.op.TimeoutMs, c.cfg.WaitMs, r.err, r.elapsed, net, budget, vpC18Slack))
+						r.worker, r.op.TimeoutMs, c.cfg.WaitMs, r.err, r.elapsed, net, budget, slack))
 				}
 				switch {
 				case r.err == nil && r.fresh:
@@ -629,9 +644,9 @@ func (c *vpC18Case) run() ([]string, string) {
 		case vpC18OpDo:
 			if r.syncDials == 0 && (errors.Is(r.err, ErrNoFreeConns) || errors.Is(r.err, ErrTimeout)) && origin.seenCount(r.op.ID) == 0 {
 				// the request never left: it only waited for a connection
-				if net > budget+vpC18Slack {
+				if net > budget+slack {
 					viol = append(viol, fmt.Sprintf("worker %d: Do id=%d (timeout=%dms, MaxConnWaitTimeout=%dms) never got a connection and returned %v only after %v (%v net of starvation); wait budget %v + %v slack",
-						r.worker, r.op.ID, r.op.TimeoutMs, c.cfg.WaitMs, r.err, r.elapsed, net, budget, vpC18Slack))
+						r.worker, r.op.ID, r.op.TimeoutMs, c.cfg.WaitMs, r.err, r.elapsed, net, budget, slack))
 				}
 				if wait > 0 {
 					waiterTimeout++
